@@ -502,7 +502,7 @@ def tz_(v): return z3.RealVal(str(v)) if isinstance(v, Fraction) else (z3.RealVa
 def _never_possible(tr, implied): return True
 
 STAT = {'queries': 0}
-PROP_OF = {'grammar': ('C10', 'C12', 'C14'), 'time-axis': ('C10',), 'schedule-out': ('C10', 'C12'), 'schedule-norm': ('C12',), 'schedule-type': ('C10',), 'abort-final-record': ('C14',), 'abort-message': ('C14',),
+PROP_OF = {'grammar': ('C10', 'C12', 'C14', 'C15'), 'time-axis': ('C10',), 'schedule-out': ('C10', 'C12'), 'schedule-norm': ('C12',), 'schedule-type': ('C10',), 'abort-final-record': ('C14',), 'abort-message': ('C14',),
            'abort-return': ('C14',), 'abort-step-complete': ('C14',), 'observer-independent': ('C12',), 'rf-flush': ('C19',)}
 TEXT = {'grammar': 'every iteration and the epilogue follow the step grammar: [wake update] integrate|integrateAndNormalize [output block: integrate variance(0) updateY variance(1) [append(ps) updateCSR append(field) [append(wake)] appendTracks [getPast appendRFKicks]] status] wm rfm drm fpm apply+applyToAll updateX; receivers constant',
         'time-axis': 'every appended record is labelled step/steps with one and the same steps; the final record is labelled with the step reached',
